@@ -669,3 +669,108 @@ func queryOrderFree(r *core.Run, sc *rules.Scope) {
 	}
 	rules.Determinism(r, &sub, "det_sites")
 }
+
+// containersOpenStrictly (R-ERR/E4o): `null` is the documented spelling of an
+// *absent member*. Where the thing being decoded already exists — an element
+// appended to an array, a value created in a map, the root message — there is
+// nothing to be absent, and a null there is a member that cannot be
+// represented: it has to be rejected, not stored as an empty object. The
+// decoder's functions come in two kinds: those that are given a Property
+// (they may skip a null before they create the field) and those that are
+// given the container itself (PropertySet / Oneof). The second kind must
+// never reach the null-tolerant opener.
+func containersOpenStrictly(r *core.Run) {
+	r.Rule("R-ERR/E4o", "a function of internal/codec that decodes braces into a container it is handed ready-made (a parameter of interface type j5reflect.PropertySet or j5reflect.Oneof, and its call tree reads a '{') does not reach the opener that accepts null (the function that returns `isNull bool`): null for an array element, a map value or the document is rejected")
+	pk := r.P.Pkg(codecRel)
+	if pk == nil {
+		r.Fatal("anchor: package %s not found", codecRel)
+		return
+	}
+	info := pk.TypesInfo
+	// the null-tolerant opener: a method of decoder with results (bool, error)
+	lenient := map[*types.Func]bool{}
+	strict := map[*types.Func]bool{}
+	core.AllFuncDecls(pk, func(fd *ast.FuncDecl) {
+		fn, _ := info.Defs[fd.Name].(*types.Func)
+		if fn == nil || fd.Recv == nil || fd.Type.Params == nil || len(fd.Type.Params.List) != 1 {
+			return
+		}
+		if core.TypeStr(info.TypeOf(fd.Type.Params.List[0].Type)) != "rune" {
+			return
+		}
+		sig := fn.Type().(*types.Signature)
+		switch sig.Results().Len() {
+		case 2:
+			if b, ok := sig.Results().At(0).Type().Underlying().(*types.Basic); ok && b.Kind() == types.Bool {
+				lenient[fn] = true
+			}
+		case 1:
+			strict[fn] = true
+		}
+	})
+	if len(lenient) == 0 || len(strict) == 0 {
+		r.Fatal("R-ERR/E4o: the strict and the null-tolerant delimiter readers of the decoder were not found")
+		return
+	}
+	n := 0
+	core.AllFuncDecls(pk, func(fd *ast.FuncDecl) {
+		if fd.Body == nil || fd.Type.Params == nil {
+			return
+		}
+		takes := false
+		for _, p := range fd.Type.Params.List {
+			ts := core.TypeStr(info.TypeOf(p.Type))
+			if strings.HasSuffix(ts, "j5reflect.PropertySet") || strings.HasSuffix(ts, "j5reflect.Oneof") {
+				takes = true
+			}
+		}
+		if !takes {
+			return
+		}
+		var viaLenient, viaStrict ast.Node
+		for _, d := range core.TreeDecls(pk, fd, 2) {
+			if d != fd {
+				// a callee that itself takes a Property decides for the property it is given
+				skip := false
+				if d.Type.Params != nil {
+					for _, p := range d.Type.Params.List {
+						if strings.HasSuffix(core.TypeStr(info.TypeOf(p.Type)), "j5reflect.Property") {
+							skip = true
+						}
+					}
+				}
+				if skip {
+					continue
+				}
+			}
+			ast.Inspect(d.Body, func(m ast.Node) bool {
+				if _, isLit := m.(*ast.FuncLit); isLit {
+					return false // the member callbacks decode members, each with its own opener
+				}
+				if c, ok := m.(*ast.CallExpr); ok {
+					if fn := core.CalleeFunc(info, c); fn != nil {
+						if lenient[fn.Origin()] && viaLenient == nil {
+							viaLenient = c
+						}
+						if strict[fn.Origin()] && viaStrict == nil {
+							viaStrict = c
+						}
+					}
+				}
+				return true
+			})
+		}
+		if viaLenient == nil && viaStrict == nil {
+			return // reads no braces itself (decodeObjectInner)
+		}
+		n++
+		o := r.Add("R-ERR/E4o", codecRel+"."+core.FuncName(fd)+" | opens its container strictly", fd.Pos(), "opener used for a ready-made container")
+		if viaLenient != nil {
+			o.Pos = r.P.Rel(viaLenient.Pos())
+			o.Fail("the container exists already (it was appended to its array, created in its map, or is the root message) and the opener accepts null: `[{…}, null]`, `{\"k\": null}` and the document `null` are stored as empty objects instead of being rejected")
+		} else {
+			o.Auto("only the strict '{' reader is reached")
+		}
+	})
+	r.Floor("R-ERR/E4o", 2, "decodeObject, decodeOneof")
+}
